@@ -15,8 +15,10 @@ import (
 	"math/rand/v2"
 	"sort"
 	"strings"
+	"sync"
 	"testing"
 	"testing/cryptotest"
+	"testing/synctest"
 	"time"
 
 	"github.com/VKCOM/tl/internal/zzverif/vrt"
@@ -69,6 +71,7 @@ type callSpec struct {
 	Extra    extraSpec `json:"extra"`
 	RespExtra extraSpec `json:"resp_extra"`
 	StartUs  int64  `json:"start_us,omitempty"`
+	MutateReqExtra int `json:"mutate_req_extra,omitempty"` // handler changes hctx.RequestExtra before answering (as a proxy does): 1 clear all, 2 clear seeded bits, 3 set all bits
 }
 
 type faultSpec struct {
@@ -96,6 +99,7 @@ type callsScenario struct {
 	MapPolicy  int `json:"map_policy"`
 	CondRandom bool `json:"cond_random"`
 	MaxAdvanceExp int `json:"max_advance_exp"` // clock advances while goroutines are runnable are bounded by 1µs<<this
+	Race       bool `json:"race"`            // run with runtime scheduling (the -race configuration)
 	CryptoSeed uint64 `json:"crypto_seed"`
 }
 
@@ -106,6 +110,7 @@ var respExtraBits = []uint{0, 1, 2, 3, 4, 5, 6, 14, 27}
 func callsGen(r *rand.Rand, params map[string]any) callsScenario {
 	sc := callsScenario{Kind: "calls"}
 	sc.Focus, _ = params["focus"].(string)
+	sc.Race = params["race"] == true
 	faulty := params["faults"] != "none"
 	ns := 1 + r.IntN(2)
 	for i := 0; i < ns; i++ {
@@ -170,9 +175,11 @@ func callsGen(r *rand.Rand, params map[string]any) callsScenario {
 		if r.IntN(2) == 0 {
 			c.ActorID = int64(r.IntN(5)) * int64(1+r.IntN(1<<30))
 		}
-		for _, b := range reqExtraBits {
-			if r.IntN(4) == 0 {
-				c.Extra.Flags |= 1 << b
+		if r.IntN(5) >= 2 { // 40% of the calls carry no request extra at all (the common case in practice: no wrapper is sent)
+			for _, b := range reqExtraBits {
+				if r.IntN(4) == 0 {
+					c.Extra.Flags |= 1 << b
+				}
 			}
 		}
 		c.Extra.Seed = r.Uint64()
@@ -182,6 +189,9 @@ func callsGen(r *rand.Rand, params map[string]any) callsScenario {
 			}
 		}
 		c.RespExtra.Seed = r.Uint64()
+		if r.IntN(4) == 0 {
+			c.MutateReqExtra = 1 + r.IntN(3)
+		}
 		sc.Calls = append(sc.Calls, c)
 	}
 	if faulty {
@@ -390,6 +400,63 @@ func mkRespExtra(sp extraSpec) ResponseExtra {
 	return e
 }
 
+// simI is what the harness needs from the simulation: the token scheduler (*vrt.Sim) in the
+// instrumented configurations, a plain counter/clock object in the -race configuration, where
+// goroutine scheduling is left to the Go runtime inside the bubble.
+type simI interface {
+	Count(string)
+	Fired(string)
+	Fail(class, msg string)
+	Failed() bool
+	Now() time.Duration
+	After(time.Duration, func())
+	Notef(string, ...any)
+	Describe() string
+	Starved() time.Duration
+	Choose(n int) int
+}
+
+type tokenSim struct{ *vrt.Sim }
+
+func (t tokenSim) Choose(n int) int { return t.Tape.Next(n) }
+
+type plainSim struct {
+	mu    sync.Mutex
+	start time.Time
+	rng   *rand.Rand
+	stats map[string]int
+	viol  []vrt.Violation
+	notes []string
+}
+
+func (p *plainSim) Count(k string) { p.mu.Lock(); p.stats[k]++; p.mu.Unlock() }
+func (p *plainSim) Fired(k string) { p.mu.Lock(); p.stats["fault."+k]++; p.mu.Unlock() }
+func (p *plainSim) Fail(class, msg string) {
+	p.mu.Lock()
+	p.viol = append(p.viol, vrt.Violation{Class: class, Msg: msg})
+	p.mu.Unlock()
+}
+func (p *plainSim) Failed() bool                  { p.mu.Lock(); defer p.mu.Unlock(); return len(p.viol) > 0 }
+func (p *plainSim) Now() time.Duration            { return time.Since(p.start) }
+func (p *plainSim) After(d time.Duration, f func()) { time.AfterFunc(d, f) }
+func (p *plainSim) Notef(format string, a ...any) {
+	p.mu.Lock()
+	if len(p.notes) < 200 {
+		p.notes = append(p.notes, fmt.Sprintf("t=%v ", time.Since(p.start))+fmt.Sprintf(format, a...))
+	}
+	p.mu.Unlock()
+}
+func (p *plainSim) Describe() string              { return " (runtime-scheduled run: no goroutine table)" }
+func (p *plainSim) Starved() time.Duration        { return 0 }
+func (p *plainSim) Choose(n int) int {
+	if n <= 1 {
+		return 0
+	}
+	p.mu.Lock()
+	defer p.mu.Unlock()
+	return p.rng.IntN(n)
+}
+
 type callState struct {
 	spec       callSpec
 	idx        int
@@ -421,8 +488,9 @@ type callState struct {
 }
 
 type callsRun struct {
+	mu      sync.Mutex // guards every field below and every callState (needed when the runtime schedules; uncontended under the token scheduler and never held across a scheduling point)
 	sc      callsScenario
-	sim     *vrt.Sim
+	sim     simI
 	net     *vrt.Net
 	servers []*Server
 	srvDone []chan struct{}
@@ -485,9 +553,11 @@ func (r *callsRun) handler(si int) HandlerFunc {
 			return &Error{Code: -1, Description: "garbled"}
 		}
 		token, _ := tokenOf(hctx.Request)
+		r.mu.Lock()
 		cs := r.byToken[token]
 		if cs == nil {
 			r.fail("C38/garbled-request", fmt.Sprintf("server %d handler received unknown token %x", si, token))
+			r.mu.Unlock()
 			return &Error{Code: -1, Description: "unknown token"}
 		}
 		if cs.spec.Server != si {
@@ -516,8 +586,22 @@ func (r *callsRun) handler(si int) HandlerFunc {
 			r.sim.Count("probe.worker_pool_full")
 		}
 		r.checkReqMem(si, "handler entry")
-		defer func() { r.running[si]-- }()
+		r.mu.Unlock()
+		defer func() { r.mu.Lock(); r.running[si]--; r.mu.Unlock() }()
 		hctx.ResponseExtra = mkRespExtra(cs.spec.RespExtra)
+		// A handler may change hctx.RequestExtra (every proxy adds and clears bits); the response must still be
+		// masked by the flags the client sent.
+		switch cs.spec.MutateReqExtra {
+		case 1:
+			hctx.RequestExtra = RequestExtra{}
+		case 2:
+			hctx.RequestExtra.Flags &^= uint32(cs.spec.RespExtra.Seed)
+		case 3:
+			hctx.RequestExtra.Flags = 0xFFFFFFFF &^ (1 << 7)
+		}
+		if cs.spec.MutateReqExtra != 0 {
+			r.sim.Count("probe.handler_mutated_request_extra")
+		}
 		switch cs.spec.Handler {
 		case "rpcerr":
 			return &Error{Code: cs.spec.ErrCode, Description: fmt.Sprintf("err-token-%016x", token)}
@@ -527,7 +611,9 @@ func (r *callsRun) handler(si int) HandlerFunc {
 			panic(fmt.Sprintf("boom-token-%016x", token))
 		case "gate":
 			r.sim.Count("probe.handler_waited_at_gate")
+			r.mu.Lock()
 			cs.atGate, cs.atGateSince = true, r.sim.Now()
+			r.mu.Unlock()
 			sel := vrt.NewSel("harness.gate")
 			vrt.SelRecv(sel, cs.gate)
 			vrt.SelRecv(sel, ctx.Done())
@@ -580,6 +666,8 @@ func wantRespBody(cs *callState) []byte {
 
 // complete is called exactly once per call with its outcome (from Do's return or from the callback).
 func (r *callsRun) complete(cs *callState, resp *Response, err error) {
+	r.mu.Lock()
+	defer r.mu.Unlock()
 	cs.completions++
 	if cs.completions > 1 {
 		r.fail("C38/double-completion", fmt.Sprintf("call %d completed %d times", cs.idx, cs.completions))
@@ -589,6 +677,7 @@ func (r *callsRun) complete(cs *callState, resp *Response, err error) {
 		r.fail("C38/callback-after-cancel", fmt.Sprintf("call %d: callback ran although CancelDoCallback had reported a successful cancel", cs.idx))
 	}
 	cs.done, cs.err, cs.doneAt = true, err, r.sim.Now()
+	r.sim.Notef("HARNESS call %d completed: err=%v", cs.idx, err)
 	if resp != nil {
 		cs.body = append([]byte{}, resp.Body...)
 		cs.respExtra = resp.Extra.WriteTL1(nil)
@@ -755,35 +844,44 @@ func (r *callsRun) doCall(cs *callState) {
 	if sp.CustomTimeoutMs > 0 {
 		req.Extra.SetCustomTimeoutMs(sp.CustomTimeoutMs)
 	}
+	r.mu.Lock()
 	cs.wantReqExtra = req.Extra.WriteTL1(nil)
 	cs.sentExtraFlags = req.Extra.Flags
 	cs.hadDeadline = sp.DeadlineUs > 0 || sp.CustomTimeoutMs > 0
 	if sp.DeadlineUs > 0 {
 		cs.sentExtraFlags |= 1 << 23
 	}
+	r.mu.Unlock()
 	ctx, cancel := context.WithCancel(context.Background())
 	if sp.DeadlineUs > 0 {
 		ctx, cancel = context.WithTimeout(context.Background(), time.Duration(sp.DeadlineUs)*time.Microsecond)
 	}
+	r.mu.Lock()
 	cs.cancel = cancel
-	srv := r.sc.Servers[sp.Server]
 	cs.startedAt = r.sim.Now()
+	r.mu.Unlock()
+	srv := r.sc.Servers[sp.Server]
 	if sp.CancelAt > 0 {
 		k := sp.CancelAt
 		vrt.Go(fmt.Sprintf("canceller%d", cs.idx), func() {
 			for i := 0; i < k; i++ {
 				vrt.Yield("harness.canceller")
 			}
+			r.mu.Lock()
 			if cs.done {
+				r.mu.Unlock()
 				return
 			}
 			cs.cancelled = true
+			ccSet, cc := cs.ccSet, cs.cc
+			r.mu.Unlock()
 			r.sim.Fired("call_cancelled_by_caller")
 			if sp.Callback {
-				if !cs.ccSet {
+				if !ccSet {
 					return // DoCallback has not returned yet: nothing to cancel with
 				}
-				if UnwrapOK(cl).CancelDoCallback(cs.cc) {
+				if UnwrapOK(cl).CancelDoCallback(cc) {
+					r.mu.Lock()
 					if cs.completions > 0 {
 						r.fail("C38/callback-after-cancel", fmt.Sprintf("call %d: CancelDoCallback reported success after the callback had run", cs.idx))
 					}
@@ -791,6 +889,7 @@ func (r *callsRun) doCall(cs *callState) {
 					cs.done = true
 					r.pendingCalls--
 					r.progress()
+					r.mu.Unlock()
 					r.sim.Count("probe.callback_cancelled")
 				}
 				return
@@ -807,9 +906,12 @@ func (r *callsRun) doCall(cs *callState) {
 			r.complete(cs, nil, err)
 			return
 		}
+		r.mu.Lock()
 		cs.cc, cs.ccSet = cc, true
+		r.mu.Unlock()
 		return
 	}
+	r.sim.Notef("HARNESS call %d Do starts (client %d server %d failfast=%v)", cs.idx, sp.Client, sp.Server, sp.FailFast)
 	resp, err := cl.Do(ctx, srv.Network, srv.Address, req)
 	r.complete(cs, resp, err)
 	cl.PutResponse(resp)
@@ -823,21 +925,26 @@ func UnwrapOK(c Client) *ClientImpl {
 }
 
 func (r *callsRun) applyFault(f faultSpec) {
+	r.sim.Notef("HARNESS fault %+v", f)
 	switch f.Kind {
 	case "reset", "stall":
-		conns := r.net.Conns
+		conns := r.net.ConnsSnapshot()
 		if len(conns) == 0 {
 			return
 		}
 		c := conns[f.Target%len(conns)]
+		r.mu.Lock()
 		r.faultsFired++
+		r.mu.Unlock()
 		if f.Kind == "reset" {
 			c.ResetNow()
 		} else {
 			c.StallOut(time.Duration(f.DurMs) * time.Millisecond)
 		}
 	case "server_shutdown":
+		r.mu.Lock()
 		r.faultsFired++
+		r.mu.Unlock()
 		r.sim.Fired("server_shutdown")
 		r.servers[f.Target].Shutdown()
 	case "server_close":
@@ -845,36 +952,57 @@ func (r *callsRun) applyFault(f faultSpec) {
 	case "client_close":
 		r.closeClient(f.Target)
 	}
+	r.mu.Lock()
 	r.progress()
+	r.mu.Unlock()
 }
 
 func (r *callsRun) closeServer(i int) {
+	r.mu.Lock()
 	if r.srvClosed[i] {
+		r.mu.Unlock()
 		return
 	}
 	r.srvClosed[i] = true
 	r.faultsFired++
+	r.mu.Unlock()
 	r.sim.Fired("server_close")
 	_ = r.servers[i].Close()
+	r.mu.Lock()
 	r.progress()
+	r.mu.Unlock()
 }
 
 func (r *callsRun) closeClient(i int) {
+	r.mu.Lock()
 	if r.cliClosed[i] {
+		r.mu.Unlock()
 		return
 	}
 	r.cliClosed[i] = true
 	r.faultsFired++
+	r.mu.Unlock()
 	r.sim.Fired("client_close")
 	_ = r.clients[i].Close()
+	r.mu.Lock()
 	r.progress()
+	r.mu.Unlock()
 }
 
 func (r *callsRun) openGate(cs *callState) {
-	if !cs.gateOpen {
-		cs.gateOpen = true
+	r.mu.Lock()
+	open := !cs.gateOpen
+	cs.gateOpen = true
+	r.mu.Unlock()
+	if open {
 		close(cs.gate)
 	}
+}
+
+func (r *callsRun) pending() int {
+	r.mu.Lock()
+	defer r.mu.Unlock()
+	return r.pendingCalls
 }
 
 func (r *callsRun) describePending() string {
@@ -888,193 +1016,204 @@ func (r *callsRun) describePending() string {
 	return strings.Join(s, "; ")
 }
 
-func callsExec(t *testing.T, sc callsScenario, tape *vrt.Tape, keepLog bool) (out vrt.RunOut) {
-	cryptotest.SetGlobalRandom(t, sc.CryptoSeed)
-	r := &callsRun{sc: sc, byToken: map[uint64]*callState{}}
-	const stuckAfter = 30 * time.Minute // simulated time without any harness-visible progress
-	cfg := vrt.Config{Strategy: sc.Strategy, TimeAdvPct: sc.TimeAdvPct, PCTChanges: 3, PCTSpan: 3000, MaxSteps: 3000000, Horizon: 2 * time.Hour, KeepLog: keepLog,
-		PoolPolicy: sc.PoolPolicy, MapPolicy: sc.MapPolicy, CondRandom: sc.CondRandom, MaxAdvanceExp: sc.MaxAdvanceExp}
-	cfg.OnStep = func(s *vrt.Sim) {
-		for si := range r.servers {
-			if r.servers[si] != nil {
-				r.checkReqMem(si, "quiescent point")
-			}
-		}
-		if r.sim != nil && s.Now()-r.lastProgress > stuckAfter {
-			r.fail("C38/stuck", fmt.Sprintf("no progress for %v of simulated time in phase %q; pending: %s; goroutines:%s", stuckAfter, r.phase, r.describePending(), s.Describe()))
-		}
+func (r *callsRun) setPhase(p string) { r.mu.Lock(); r.phase = p; r.mu.Unlock() }
+
+// body is the root of one run: set-up, calls, faults, waiting, wind-down. It runs as simulated
+// goroutine g0 under the token scheduler, or as the bubble's root goroutine in the -race configuration.
+func (r *callsRun) body(s simI) {
+	sc := r.sc
+	r.sim = s
+	r.setPhase("setup")
+	r.net = vrt.NewNet(vrt.NetConfig{MinLatency: 20 * time.Microsecond, Jitter: time.Duration(sc.JitterUs) * time.Microsecond, MaxSegment: sc.MaxSegment, MaxRead: sc.MaxRead,
+		Capacity: sc.Capacity, DialRefusePct: sc.DialRefusePct}, s.Choose)
+	vrt.DialFunc = r.net.Dial
+	defer func() { vrt.DialFunc = nil }()
+	nolog := func(format string, a ...any) { s.Notef("LOG "+format, a...) }
+	r.mu.Lock()
+	r.running = make([]int, len(sc.Servers))
+	r.maxRunning = make([]int, len(sc.Servers))
+	r.srvClosed = make([]bool, len(sc.Servers))
+	r.cliClosed = make([]bool, len(sc.Clients))
+	for i, sp := range sc.Calls {
+		cs := &callState{spec: sp, idx: i, token: 0xC0DE000000000000 | uint64(i)<<32 | (sc.CryptoSeed & 0xFFFFFFFF), gate: make(chan struct{})}
+		r.calls = append(r.calls, cs)
+		r.byToken[cs.token] = cs
 	}
-	cfg.OnIdle = func(s *vrt.Sim) bool {
-		r.fail("C38/stuck", fmt.Sprintf("system idle in phase %q; pending: %s; goroutines:%s", r.phase, r.describePending(), s.Describe()))
-		return false
-	}
-	res := vrt.Run(t, cfg, tape, func(s *vrt.Sim) {
-		r.sim = s
-		r.phase = "setup"
-		r.net = vrt.NewNet(vrt.NetConfig{MinLatency: 20 * time.Microsecond, Jitter: time.Duration(sc.JitterUs) * time.Microsecond, MaxSegment: sc.MaxSegment, MaxRead: sc.MaxRead,
-			Capacity: sc.Capacity, DialRefusePct: sc.DialRefusePct}, s.Tape.Next)
-		vrt.DialFunc = r.net.Dial
-		defer func() { vrt.DialFunc = nil }()
-		nolog := func(format string, a ...any) { s.Notef("LOG "+format, a...) }
-		r.running = make([]int, len(sc.Servers))
-		r.maxRunning = make([]int, len(sc.Servers))
-		r.srvClosed = make([]bool, len(sc.Servers))
-		r.cliClosed = make([]bool, len(sc.Clients))
-		for si, sp := range sc.Servers {
-			opts := []ServerOptionsFunc{ServerWithLogf(nolog), ServerWithHandler(r.handler(si)), ServerWithMaxWorkers(sp.MaxWorkers),
-				ServerWithRequestBufSize(sp.ReqBuf), ServerWithRequestMemoryLimit(sp.ReqMemLimit), ServerWithConnReadBufSize(sp.RBuf), ServerWithConnWriteBufSize(sp.WBuf),
-				ServerWithTrustedSubnetGroups([][]string{{"10.9.0.0/16"}})}
-			if sp.WithKey {
-				opts = append(opts, ServerWithCryptoKeys([]string{frKey}))
-			}
-			if sp.ForceEnc {
-				opts = append(opts, ServerWithForceEncryption(true))
-			}
-			srv := NewServer(opts...)
-			r.servers = append(r.servers, srv)
-			ln := r.net.Listen(sp.Network, sp.Address)
-			done := make(chan struct{})
-			r.srvDone = append(r.srvDone, done)
-			vrt.Go(fmt.Sprintf("serve%d", si), func() {
-				_ = srv.Serve(ln)
-				close(done)
-			})
+	r.pendingCalls = len(r.calls)
+	r.mu.Unlock()
+	var servers []*Server
+	for si, sp := range sc.Servers {
+		opts := []ServerOptionsFunc{ServerWithLogf(nolog), ServerWithHandler(r.handler(si)), ServerWithMaxWorkers(sp.MaxWorkers),
+			ServerWithRequestBufSize(sp.ReqBuf), ServerWithRequestMemoryLimit(sp.ReqMemLimit), ServerWithConnReadBufSize(sp.RBuf), ServerWithConnWriteBufSize(sp.WBuf),
+			ServerWithTrustedSubnetGroups([][]string{{"10.9.0.0/16"}})}
+		if sp.WithKey {
+			opts = append(opts, ServerWithCryptoKeys([]string{frKey}))
 		}
-		for _, cp := range sc.Clients {
-			opts := []ClientOptionsFunc{ClientWithLogf(nolog), ClientWithProtocolVersion(cp.Protocol), ClientWithConnReadBufSize(cp.RBuf), ClientWithConnWriteBufSize(cp.WBuf),
-				ClientWithMaxReconnectDelay(time.Duration(cp.MaxReconnectMs) * time.Millisecond)}
-			if cp.WithKey {
-				opts = append(opts, ClientWithCryptoKey(frKey))
-			}
-			if cp.ForceEnc {
-				opts = append(opts, ClientWithForceEncryption(true))
-			}
-			r.clients = append(r.clients, NewClient(opts...))
+		if sp.ForceEnc {
+			opts = append(opts, ServerWithForceEncryption(true))
 		}
-		for i, sp := range sc.Calls {
-			cs := &callState{spec: sp, idx: i, token: 0xC0DE000000000000 | uint64(i)<<32 | (sc.CryptoSeed & 0xFFFFFFFF), gate: make(chan struct{})}
-			r.calls = append(r.calls, cs)
-			r.byToken[cs.token] = cs
-		}
-		r.pendingCalls = len(r.calls)
-		r.phase = "calls"
-		r.progress()
-		for _, cs := range r.calls {
-			cs := cs
-			vrt.Go(fmt.Sprintf("call%d", cs.idx), func() { r.doCall(cs) })
-			if cs.spec.Handler == "gate" && cs.spec.GateUs > 0 {
-				s.After(time.Duration(cs.spec.GateUs)*time.Microsecond, func() { r.openGate(cs) })
-			}
-		}
-		// faults are applied by one simulated goroutine in time order (Close/Shutdown are program code)
-		faults := append([]faultSpec{}, sc.Faults...)
-		sort.SliceStable(faults, func(i, j int) bool { return faults[i].AtUs < faults[j].AtUs })
-		faultsDone := make(chan struct{})
-		vrt.Go("faults", func() {
-			for _, f := range faults {
-				if d := time.Duration(f.AtUs)*time.Microsecond - s.Now(); d > 0 {
-					time.Sleep(d)
-					vrt.Yield("harness.fault.wait")
-				}
-				r.applyFault(f)
-			}
-			close(faultsDone)
+		srv := NewServer(opts...)
+		servers = append(servers, srv)
+		ln := r.net.Listen(sp.Network, sp.Address)
+		done := make(chan struct{})
+		r.srvDone = append(r.srvDone, done)
+		vrt.Go(fmt.Sprintf("serve%d", si), func() {
+			_ = srv.Serve(ln)
+			close(done)
 		})
-		<-faultsDone
-		vrt.Yield("harness.faults.done")
-		// wait for the calls: poll on simulated time so that the wait itself is a schedulable goroutine
-		wait := func(phase string, limit time.Duration) bool {
-			r.phase = phase
-			deadline := s.Now() + limit
-			nap := 100 * time.Microsecond
-			for r.pendingCalls > 0 && s.Now() < deadline && !s.Failed() {
-				time.Sleep(nap)
-				vrt.Yield("harness.wait")
-				if nap < 500*time.Millisecond {
-					nap *= 2
-				}
-			}
-			return r.pendingCalls == 0
+	}
+	var clients []Client
+	for _, cp := range sc.Clients {
+		opts := []ClientOptionsFunc{ClientWithLogf(nolog), ClientWithProtocolVersion(cp.Protocol), ClientWithConnReadBufSize(cp.RBuf), ClientWithConnWriteBufSize(cp.WBuf),
+			ClientWithMaxReconnectDelay(time.Duration(cp.MaxReconnectMs) * time.Millisecond)}
+		if cp.WithKey {
+			opts = append(opts, ClientWithCryptoKey(frKey))
 		}
-		if !wait("waiting for calls", 2*time.Minute) {
-			// whatever is still gated is released now
-			r.phase = "release gates"
+		if cp.ForceEnc {
+			opts = append(opts, ClientWithForceEncryption(true))
+		}
+		clients = append(clients, NewClient(opts...))
+	}
+	r.mu.Lock()
+	r.servers, r.clients = servers, clients
+	r.progress()
+	r.mu.Unlock()
+	r.setPhase("calls")
+	for _, cs := range r.calls {
+		cs := cs
+		vrt.Go(fmt.Sprintf("call%d", cs.idx), func() { r.doCall(cs) })
+		if cs.spec.Handler == "gate" && cs.spec.GateUs > 0 {
+			s.After(time.Duration(cs.spec.GateUs)*time.Microsecond, func() { r.openGate(cs) })
+		}
+	}
+	// faults are applied by one goroutine in time order (Close/Shutdown are program code)
+	faults := append([]faultSpec{}, sc.Faults...)
+	sort.SliceStable(faults, func(i, j int) bool { return faults[i].AtUs < faults[j].AtUs })
+	faultsDone := make(chan struct{})
+	vrt.Go("faults", func() {
+		for _, f := range faults {
+			if d := time.Duration(f.AtUs)*time.Microsecond - s.Now(); d > 0 {
+				time.Sleep(d)
+				vrt.Yield("harness.fault.wait")
+			}
+			r.applyFault(f)
+		}
+		close(faultsDone)
+	})
+	<-faultsDone
+	vrt.Yield("harness.faults.done")
+	wait := func(phase string, limit time.Duration, cond func() bool) bool {
+		r.setPhase(phase)
+		deadline := s.Now() + limit
+		nap := 100 * time.Microsecond
+		for !cond() && s.Now() < deadline && !s.Failed() {
+			time.Sleep(nap)
+			vrt.Yield("harness.wait")
+			if nap < 500*time.Millisecond {
+				nap *= 2
+			}
+		}
+		return cond()
+	}
+	allDone := func() bool { return r.pending() == 0 }
+	if !wait("waiting for calls", 2*time.Minute, allDone) {
+		// whatever is still gated is released now
+		r.setPhase("release gates")
+		for _, cs := range r.calls {
+			if cs.spec.Handler == "gate" {
+				r.openGate(cs)
+			}
+		}
+		r.mu.Lock()
+		r.progress()
+		r.mu.Unlock()
+		if !wait("after releasing gates", 10*time.Minute, allDone) && !s.Failed() {
+			// Calls may legitimately wait: their server is closed/shut down (the client keeps reconnecting), or
+			// dial refusals keep the connection down. They must return once their context is cancelled.
+			type toCancel struct {
+				cs *callState
+				cc CallbackContext
+				cb bool
+			}
+			var cancels []toCancel
+			r.mu.Lock()
 			for _, cs := range r.calls {
-				if cs.spec.Handler == "gate" {
-					r.openGate(cs)
+				if cs.done {
+					continue
 				}
+				srvGone := r.srvClosed[cs.spec.Server]
+				for _, f := range sc.Faults {
+					if f.Kind == "server_shutdown" && f.Target == cs.spec.Server {
+						srvGone = true
+					}
+				}
+				if !srvGone && sc.DialRefusePct == 0 && !r.cliClosed[cs.spec.Client] {
+					r.fail("C38/stuck-call", fmt.Sprintf("call %d (client %d -> server %d, handler %s, handled=%d) did not complete within 12 simulated minutes after the last fault although its server is serving and every gate is open", cs.idx, cs.spec.Client, cs.spec.Server, cs.spec.Handler, cs.handled))
+				}
+				cs.cancelled = true
+				cancels = append(cancels, toCancel{cs, cs.cc, cs.spec.Callback && cs.ccSet})
 			}
 			r.progress()
-			if !wait("after releasing gates", 10*time.Minute) && !s.Failed() {
-				// Calls may legitimately wait: their server is closed/shut down (the client keeps reconnecting), or
-				// dial refusals keep the connection down. They must return once their context is cancelled.
+			r.mu.Unlock()
+			for _, c := range cancels {
+				s.Count("probe.call_cancelled_at_end_of_run")
+				if c.cb {
+					if UnwrapOK(clients[c.cs.spec.Client]).CancelDoCallback(c.cc) {
+						r.mu.Lock()
+						if !c.cs.done {
+							c.cs.cancelOK, c.cs.done = true, true
+							r.pendingCalls--
+						}
+						r.mu.Unlock()
+					}
+				}
+				c.cs.cancel()
+			}
+			pendingSync := func() bool {
+				r.mu.Lock()
+				defer r.mu.Unlock()
 				for _, cs := range r.calls {
-					if !cs.done {
-						srvGone := r.srvClosed[cs.spec.Server]
-						for _, f := range sc.Faults {
-							if f.Kind == "server_shutdown" && f.Target == cs.spec.Server {
-								srvGone = true
-							}
-						}
-						if !srvGone && sc.DialRefusePct == 0 && !r.cliClosed[cs.spec.Client] {
-							r.fail("C38/stuck-call", fmt.Sprintf("call %d (client %d -> server %d, handler %s, handled=%d) did not complete within 12 simulated minutes after the last fault although its server is serving and every gate is open", cs.idx, cs.spec.Client, cs.spec.Server, cs.spec.Handler, cs.handled))
-						}
-						s.Count("probe.call_cancelled_at_end_of_run")
-						cs.cancelled = true
-						if cs.spec.Callback && cs.ccSet && !cs.done {
-							if UnwrapOK(r.clients[cs.spec.Client]).CancelDoCallback(cs.cc) {
-								cs.cancelOK, cs.done = true, true
-								r.pendingCalls--
-							}
-						}
-						cs.cancel()
+					if !cs.done && !cs.spec.Callback {
+						return false
 					}
 				}
-				r.progress()
-				pendingSync := func() int {
-					n := 0
-					for _, cs := range r.calls {
-						if !cs.done && !cs.spec.Callback {
-							n++
-						}
-					}
-					return n
-				}
-				r.phase = "after cancelling the remaining calls"
-				deadline := s.Now() + 5*time.Minute
-				for nap := time.Millisecond; pendingSync() > 0 && s.Now() < deadline && !s.Failed(); nap *= 2 {
-					time.Sleep(nap)
-					vrt.Yield("harness.wait")
-				}
-				if pendingSync() > 0 && !s.Failed() {
-					r.fail("C38/call-never-returns", "after cancelling their contexts these calls still have not returned: "+r.describePending())
-				}
+				return true
+			}
+			if !wait("after cancelling the remaining calls", 5*time.Minute, pendingSync) && !s.Failed() {
+				r.mu.Lock()
+				d := r.describePending()
+				r.mu.Unlock()
+				r.fail("C38/call-never-returns", "after cancelling their contexts these calls still have not returned: "+d)
 			}
 		}
-		// closing either side makes all pending calls return; then everything must wind down
-		r.phase = "closing clients"
-		for i := range r.clients {
-			r.closeClient(i)
-		}
-		r.phase = "closing servers"
-		for i := range r.servers {
-			r.closeServer(i)
-		}
-		r.phase = "waiting for Serve to return"
-		for _, d := range r.srvDone {
-			<-d
-			vrt.Yield("harness.serve.done")
-		}
-		r.phase = "waiting for goroutines to exit"
-		r.progress()
-	})
-	out.Result = res
-	out.Probes = map[string]int{}
-	if r.net != nil {
-		for k, v := range r.net.Stats() {
-			_ = k
-			_ = v
-		}
+	}
+	// closing either side makes all pending calls return; then everything must wind down
+	r.setPhase("closing clients")
+	for i := range clients {
+		r.closeClient(i)
+	}
+	r.setPhase("closing servers")
+	for i := range servers {
+		r.closeServer(i)
+	}
+	r.setPhase("waiting for Serve to return")
+	for _, d := range r.srvDone {
+		<-d
+		vrt.Yield("harness.serve.done")
+	}
+	r.setPhase("waiting for goroutines to exit")
+	r.mu.Lock()
+	r.progress()
+	r.mu.Unlock()
+}
+
+const callsStuckAfter = 30 * time.Minute // simulated time without any harness-visible progress
+
+func (r *callsRun) summary(out *vrt.RunOut, stats map[string]int) {
+	r.mu.Lock()
+	defer r.mu.Unlock()
+	if out.Probes == nil {
+		out.Probes = map[string]int{}
 	}
 	for si := range r.maxRunning {
 		if r.maxRunning[si] > 1 {
@@ -1088,15 +1227,101 @@ func callsExec(t *testing.T, sc callsScenario, tape *vrt.Tape, keepLog bool) (ou
 		}
 	}
 	out.Progress = completed > 0
+	sc := r.sc
+	out.Sample = map[string]any{"servers": len(sc.Servers), "clients": len(sc.Clients), "calls": len(sc.Calls), "faults": sc.Faults, "completed": completed,
+		"first_call": sc.Calls[0], "net": map[string]int{"max_segment": sc.MaxSegment, "max_read": sc.MaxRead, "capacity": sc.Capacity}}
+}
+
+func callsExec(t *testing.T, sc callsScenario, tape *vrt.Tape, keepLog bool) (out vrt.RunOut) {
+	cryptotest.SetGlobalRandom(t, sc.CryptoSeed)
+	r := &callsRun{sc: sc, byToken: map[uint64]*callState{}}
+	if sc.Race {
+		return callsExecRace(t, r)
+	}
+	cfg := vrt.Config{Strategy: sc.Strategy, TimeAdvPct: sc.TimeAdvPct, PCTChanges: 3, PCTSpan: 3000, MaxSteps: 3000000, Horizon: 2 * time.Hour, KeepLog: keepLog,
+		PoolPolicy: sc.PoolPolicy, MapPolicy: sc.MapPolicy, CondRandom: sc.CondRandom, MaxAdvanceExp: sc.MaxAdvanceExp}
+	cfg.OnStep = func(s *vrt.Sim) {
+		r.mu.Lock()
+		defer r.mu.Unlock()
+		if r.sim == nil {
+			return
+		}
+		for si := range r.servers {
+			r.checkReqMem(si, "quiescent point")
+		}
+		if s.Now()-r.lastProgress > callsStuckAfter {
+			r.fail("C38/stuck", fmt.Sprintf("no progress for %v of simulated time in phase %q; pending: %s; goroutines:%s", callsStuckAfter, r.phase, r.describePending(), s.Describe()))
+		}
+	}
+	cfg.OnIdle = func(s *vrt.Sim) bool {
+		r.mu.Lock()
+		defer r.mu.Unlock()
+		r.fail("C38/stuck", fmt.Sprintf("system idle in phase %q; pending: %s; goroutines:%s", r.phase, r.describePending(), s.Describe()))
+		return false
+	}
+	res := vrt.Run(t, cfg, tape, func(s *vrt.Sim) { r.body(tokenSim{s}) })
+	out.Result = res
+	r.summary(&out, nil)
 	out.Nontrivial = res.Stats["sched.contended_steps"] > 0
 	if len(out.Violations) == 0 && res.Outcome != "done" {
-		class := "machinery"
-		if res.Outcome == "budget" {
-			class = "machinery"
-		}
-		out.Violations = append(out.Violations, vrt.Violation{Class: class, Msg: "run ended with outcome " + res.Outcome + " in phase " + r.phase})
+		out.Violations = append(out.Violations, vrt.Violation{Class: "machinery", Msg: "run ended with outcome " + res.Outcome + " in phase " + r.phase})
 	}
-	out.Sample = map[string]any{"servers": len(sc.Servers), "clients": len(sc.Clients), "calls": len(sc.Calls), "faults": sc.Faults, "completed": completed,
-		"steps": res.Steps, "sim_time": res.SimTime.String(), "first_call": sc.Calls[0], "net": map[string]int{"max_segment": sc.MaxSegment, "max_read": sc.MaxRead, "capacity": sc.Capacity}}
+	return out
+}
+
+// callsExecRace: the same scenario, harness and oracles on the package as shipped (only the dial
+// and PRNG seams are rewritten), built with -race; goroutines are scheduled by the Go runtime at
+// GOMAXPROCS 16 inside the bubble. A race report terminates the worker with exit code 66, which the
+// driver turns into a violation; the scenario stream replays exactly, the interleaving only statistically.
+func callsExecRace(t *testing.T, r *callsRun) (out vrt.RunOut) {
+	out.NoDetCheck = true
+	out.Outcome = "done"
+	ps := &plainSim{rng: rand.New(rand.NewPCG(r.sc.CryptoSeed, 38)), stats: map[string]int{}}
+	func() {
+		defer func() {
+			if p := recover(); p != nil {
+				ps.Fail("C38/goroutine-leak-or-deadlock", fmt.Sprintf("after both sides were closed the bubble did not wind down: %v", p))
+			}
+		}()
+		synctest.Test(t, func(t *testing.T) {
+			ps.start = time.Now()
+			stop := make(chan struct{})
+			go func() { // monitor: the quiescent-point checks of the token scheduler, on a timer instead
+				for {
+					select {
+					case <-stop:
+						return
+					case <-time.After(2 * time.Millisecond):
+					}
+					r.mu.Lock()
+					if r.sim != nil {
+						for si := range r.servers {
+							r.checkReqMem(si, "monitor tick")
+						}
+						if ps.Now()-r.lastProgress > callsStuckAfter {
+							r.fail("C38/stuck", fmt.Sprintf("no progress for %v of simulated time in phase %q; pending: %s", callsStuckAfter, r.phase, r.describePending()))
+						}
+					}
+					r.mu.Unlock()
+				}
+			}()
+			r.body(ps)
+			close(stop)
+		})
+	}()
+	r.summary(&out, nil)
+	ps.mu.Lock()
+	out.Violations = ps.viol
+	if len(out.Violations) > 0 {
+		out.Violations[0].Msg += "\nprogram log:\n  " + strings.Join(ps.notes, "\n  ")
+	}
+	out.Stats = ps.stats
+	ps.mu.Unlock()
+	if len(out.Violations) > 0 {
+		out.Outcome = "violation"
+	}
+	out.Nontrivial = true
+	out.Sig = vrt.HashJSON(r.sc)
+	out.LogHash = out.Sig
 	return out
 }
